@@ -78,6 +78,8 @@ class World:
         self.clock = None
         self.last_outcome = ''
         self.trace = []          # short human-readable outcome per event
+        from . import store
+        store.install_clock()
 
     # ------------------------------------------------------------ helpers --
     def fail(self, oracle, detail, finding=None, trigger=True):
